@@ -302,7 +302,7 @@ func (c *Ctx) ruleR01d(rule string, strictPrune bool) {
 				continue
 			}
 			fc, isF := isStaticMethod(l, "data", "IntMap", "Filter")
-			if !isF || len(fc.Call.Args) != 2 || fc.Call.Args[0] != L {
+			if !isF || len(fc.Call.Args) != 2 || m.Tr(fc.Call.Args[0]) != ssa.Value(L) {
 				ok = false
 				why = "the stored context is " + l.String() + ", neither the incoming context nor its Filter"
 				continue
@@ -310,7 +310,7 @@ func (c *Ctx) ruleR01d(rule string, strictPrune bool) {
 			// the filter set must include the wrapped call's curtailing set
 			inc := false
 			for _, e := range ssax.Extracts(m.Wrapped, 1) {
-				if dependsOn(fc.Call.Args[1], e, isUnionCall) {
+				if dependsOn(m.Tr(fc.Call.Args[1]), e, isUnionCall) {
 					inc = true
 				}
 			}
@@ -318,7 +318,7 @@ func (c *Ctx) ruleR01d(rule string, strictPrune bool) {
 				ok = false
 				why = "the stored context is filtered by a set that does not include the wrapped call's curtailing parsers: counters the result depends on are forgotten, and the result is reused where deeper recursion was allowed"
 			}
-			if strictPrune && inc && !isExtractOf(fc.Call.Args[1], m.Wrapped, 1) {
+			if strictPrune && inc && !isExtractOf(m.Tr(fc.Call.Args[1]), m.Wrapped, 1) {
 				ok = false
 				why = "the stored context is filtered by a superset of the wrapped call's curtailing parsers; for at-most-once it has to be exactly that set"
 			}
